@@ -9,7 +9,7 @@
 //!   out: log-probability lp  ->  round(exp(lp) * den^(2T+1))  (+ flags nan / posinf / neginf)
 use bio::stats::hmm::discrete_emission::Model as Plain;
 use bio::stats::hmm::discrete_emission_opt_end::Model as OptEnd;
-use bio::stats::hmm::{backward, forward, viterbi};
+use bio::stats::hmm::{backward, forward, viterbi, Model};
 use bio::stats::{LogProb, Prob};
 use bio_verif_harness::{usizes, Log, Rng};
 use ndarray::{Array1, Array2};
@@ -30,6 +30,7 @@ struct Mdl {
     layout: &'static str, // c (row major) | f (column major) | sliced (row major, via a strided view)
 }
 
+#[derive(Clone, PartialEq)]
 enum Obj {
     P(Plain),
     O(OptEnd),
@@ -130,14 +131,48 @@ fn run_model(log: &mut Log, tag: &str, md: &Mdl, obs_list: &[Vec<usize>]) {
         obj = Some(build(md));
         json!({"built": 1})
     });
-    let obj = match obj {
+    let mut obj = match obj {
         Some(o) => o,
         None => return,
     };
-    for obs in obs_list {
+    // secondary observables of the model object
+    log.call("meta", json!({}), || {
+        let (ns, st, tr): (usize, Vec<usize>, Vec<Value>) = match &obj {
+            Obj::P(h) => (h.num_states(), h.states().map(|x| *x).collect(), h.transitions().map(|t| json!([*t.src, *t.dst])).collect()),
+            Obj::O(h) => (h.num_states(), h.states().map(|x| *x).collect(), h.transitions().map(|t| json!([*t.src, *t.dst])).collect()),
+        };
+        json!({"ns": ns, "states": usizes(&st), "trans": Value::Array(tr)})
+    });
+    // the same object is asked for the sequences in the given order, then (history independence)
+    // for the first one again; half way through it is replaced by a clone of itself
+    let mut order: Vec<&Vec<usize>> = obs_list.iter().collect();
+    if md.s % 2 == 0 {
+        order.reverse();
+        log.oblige("obs_order_reversed");
+    }
+    if let Some(first) = order.first().cloned() {
+        order.push(first);
+        log.oblige("obs_repeated_at_end");
+    }
+    let half = order.len() / 2;
+    for (oi, obs) in order.into_iter().enumerate() {
+        if oi == half {
+            log.call("clone", json!({}), || {
+                let c = obj.clone();
+                let eq = c == obj;
+                obj = c;
+                json!({"eq": eq as u8})
+            });
+            log.oblige("model_cloned_mid_use");
+        }
         let t = obs.len();
         let scale = (md.den as f64).powi(2 * t as i32 + 1);
         let sc = scale as i64;
+        // the last computed row of the forward / backward tables on their own scales:
+        // forward row T-1 over den^(2T), backward row T-1 (= beta_1) over den^(2T-1)
+        let row_json = |row: ndarray::ArrayView1<LogProb>, rscale: f64| -> Value {
+            Value::Array(row.iter().map(|lp| proj(**lp, rscale)).collect())
+        };
         log.call("viterbi", json!({"obs": usizes(obs)}), || {
             let (path, lp) = match &obj {
                 Obj::P(h) => viterbi(h, obs),
@@ -149,21 +184,25 @@ fn run_model(log: &mut Log, tag: &str, md: &Mdl, obs_list: &[Vec<usize>]) {
             v
         });
         log.call("forward", json!({"obs": usizes(obs)}), || {
-            let (_, lp) = match &obj {
+            let (tab, lp) = match &obj {
                 Obj::P(h) => forward(h, obs),
                 Obj::O(h) => forward(h, obs),
             };
             let mut v = proj(*lp, scale);
             v["scale"] = json!(sc);
+            v["shape"] = json!([tab.nrows(), tab.ncols()]);
+            v["row"] = row_json(tab.row(t - 1), (md.den as f64).powi(2 * t as i32));
             v
         });
         log.call("backward", json!({"obs": usizes(obs)}), || {
-            let (_, lp) = match &obj {
+            let (tab, lp) = match &obj {
                 Obj::P(h) => backward(h, obs),
                 Obj::O(h) => backward(h, obs),
             };
             let mut v = proj(*lp, scale);
             v["scale"] = json!(sc);
+            v["shape"] = json!([tab.nrows(), tab.ncols()]);
+            v["row"] = row_json(tab.row(t - 1), (md.den as f64).powi(2 * t as i32 - 1));
             v
         });
     }
